@@ -55,9 +55,6 @@ func main() {
 	witnessAll := flag.Int("witness-all", 0, "run the concrete contract check (N random records per function) for every target function")
 	flag.Parse()
 	skipWitness = *noWitness
-	if *replayF != "" {
-		os.Exit(doReplay(*replayF, *repo, *verif))
-	}
 	t0 := time.Now()
 
 	timeout := 120
@@ -105,6 +102,10 @@ func main() {
 		}
 	}
 
+	if *replayF != "" {
+		replayOverlay = overlay
+		os.Exit(doReplay(*replayF, *repo, *verif))
+	}
 	variants := []string{"verif"}
 	if cfg != nil {
 		variants = append(variants, cfg.Variants...)
@@ -478,6 +479,51 @@ func main() {
 			}
 		}
 	}
+	// trusted contracts (bodies outside the verifier's reach): BOUNDED concrete check of the contract
+	// against executions of the real function; never counted as proved
+	var boundedChecks []interface{}
+	if theWorld != nil && !skipWitness && *only == "" {
+		var tks []string
+		for k := range theWorld.Trusted {
+			tks = append(tks, k)
+		}
+		sort.Strings(tks)
+		nrec := 400
+		if *tier == "thorough" {
+			nrec = 5000
+		}
+		for _, short := range tks {
+			kk := strings.Index(short, ".")
+			key := modPath + "/" + short[:kk] + "." + short[kk+1:]
+			fs := theWorld.FuncSpecs[key]
+			if fs == nil {
+				continue
+			}
+			res := theWorld.witnessFor(fs, nil, *repo, nrec, nil)
+			if res == nil {
+				genErrors = append(genErrors, "trusted contract of "+short+" could not be exercised concretely")
+				continue
+			}
+			bc := map[string]interface{}{"function": short, "kind": "bounded: contract evaluated on concrete executions of the real function (reflect driver, go test -overlay)",
+				"records_tried": res["records_tried"], "records_admissible": res["records_admissible"], "bound": fmt.Sprintf("%d seeded random/boundary records, seed %d", nrec, seedFromEnv())}
+			boundedChecks = append(boundedChecks, bc)
+			if adm, _ := res["records_admissible"].(int); adm == 0 {
+				genErrors = append(genErrors, fmt.Sprintf("bounded check of trusted %s: no admissible record (%v)", short, res["error"]))
+			}
+			if c, _ := res["confirmed"].(bool); c {
+				rp := filepath.Join(*verif, "replay", fmt.Sprintf("%s-%s.json", pid, sanitize(key+"/trusted-contract-on-real-code")))
+				r := map[string]interface{}{"property": pid, "obligation": key + "/trusted-contract-on-real-code", "function": key,
+					"note": "the contract of this function is trusted by the proofs of its callers (body outside the subset); evaluated on concrete executions of the real code it is violated by the recorded input",
+					"witness": res}
+				b, _ := json.MarshalIndent(r, "", " ")
+				os.WriteFile(rp, b, 0644)
+				fmt.Printf("FAILED %s/trusted-contract-on-real-code :: %v\n", key, res["violated"])
+				fmt.Printf("VIOLATION property=%s replay=%s\n", pid, rp)
+				violations++
+				exit = 1
+			}
+		}
+	}
 	for _, o := range coverBad {
 		fmt.Printf("VACUOUS %s: %s on no path (contradictory precondition or invariant?)\n", o.Name, o.Text)
 	}
@@ -503,11 +549,16 @@ func main() {
 		pid, nObl, nDis, knownHits, violations, nCover, nCoverBad, genSecs, solverSecs, wall, maxSecs, slowest)
 
 	if !*noEvidence && *prop != "" {
-		var fl []string
+		var fl, tl []string
 		for f := range funcsUnderContract {
+			if theWorld != nil && theWorld.Trusted[f] {
+				tl = append(tl, f)
+				continue
+			}
 			fl = append(fl, f)
 		}
 		sort.Strings(fl)
+		sort.Strings(tl)
 		var al []string
 		for a := range assumes {
 			al = append(al, a)
@@ -550,6 +601,8 @@ func main() {
 				"Go compiler/runtime implement the language spec; partial correctness only (no termination, no memory exhaustion)",
 			},
 			"functions_under_contract": fl,
+			"functions_trusted_contract_bounded_check": tl,
+			"bounded_checks":           boundedChecks,
 			"lemmas_proved":            lemmasProved,
 			"by_backend":               solverCount,
 			"solver_cpu_s":             round2(solverSecs),
@@ -679,6 +732,8 @@ func writeReplay(path, prop string, o *Obligation, paths, failed int, repo, veri
 }
 
 // doReplay re-runs the concrete call recorded in a replay file on the current tree.
+var replayOverlay map[string][]byte
+
 func doReplay(path, repo, verif string) int {
 	b, err := os.ReadFile(path)
 	if err != nil {
@@ -694,7 +749,7 @@ func doReplay(path, repo, verif string) int {
 		fmt.Printf("replay file %s carries no concrete input (obligation %v failed without a witness); re-run ./check %s to re-decide the obligation\n", path, r["obligation"], prop)
 		return 0
 	}
-	w, err := LoadWorld(repo, "verif", nil, []string{"./..."})
+	w, err := LoadWorld(repo, "verif", replayOverlay, []string{"./..."})
 	if err != nil {
 		fatal("load: %v", err)
 	}
@@ -715,6 +770,10 @@ func doReplay(path, repo, verif string) int {
 			fmt.Printf("VIOLATION property=%s replay=%s\n", prop, path)
 			return 1
 		}
+	}
+	if res == nil || res["error"] != nil {
+		fmt.Printf("replay of %s could not be executed: %v\n", path, res)
+		return 2
 	}
 	fmt.Printf("replay of %s: the recorded call satisfies the contract on the current tree (%v)\n", path, res)
 	return 0
